@@ -177,6 +177,29 @@ pub fn run(tier: Tier) -> i32 {
     pairs::run_pairs(&run, &s3, &none, &|b, p, q, out| equal_family(b, p, q, out), &|a, _, b, _| st.in_s1(a, b), &|a, p, b, q, _, l| { dd_case(a, p, b, q, l); dd_case(b, q, a, p, l); });
     run.stage("S3 equal-value families", json!({"values": st.big.len(), "scale_pairs": 361, "variants": "exact re-expression and +-1 in its last place, both operand orders"}));
 
+    // S4: wrap-collision partners: for every coefficient c of the large alphabet and every scale shift k, the value d that
+    // c*10^k collapses to when the alignment is done in wrapping 128-bit (or 64-bit) arithmetic: (c, p) and (d, p+k)
+    // differ by a factor of 1.3 .. 10^18, but an equality test on wrapped products sees identical bits (seeded change
+    // C08-h1). Both operand orders, p = 0 and p = 18-k.
+    {
+        let items: Vec<(i128, u8)> = st.big.iter().flat_map(|&c| (1..=18u8).map(move |k| (c, k))).collect();
+        run.par_for(&items, || {}, |&(c, k), l| {
+            if c == 0 { return; }
+            let m = c.unsigned_abs();
+            let t = alpha::pow10(k as u32) as u128;
+            let mut partners: Vec<u128> = Vec::new();
+            if m.checked_mul(t).is_none() { partners.push(m.wrapping_mul(t)); }              // wrapped at 2^128
+            if m.checked_mul(t).map(|v| v > i128::MAX as u128).unwrap_or(false) { partners.push(m * t - (1u128 << 127)); } // lost sign bit
+            if m < (1u128 << 64) && m.checked_mul(t).map(|v| v >> 64 != 0).unwrap_or(true) { partners.push((m as u64).wrapping_mul(t as u64) as u128); } // wrapped at 2^64
+            for w in partners {
+                if w == 0 || w > i128::MAX as u128 { continue; }
+                let d = if c < 0 { -(w as i128) } else { w as i128 };
+                for p in [0u8, 18 - k] { dd_case(c, p, d, p + k, l); dd_case(d, p + k, c, p, l); l.distinct += 2; }
+            }
+        });
+        run.stage("S4 wrap-collision partners", json!({"coefficients": st.big.len(), "shifts": 18, "wraps": "2^128, lost sign bit (2^127), 2^64"}));
+    }
+
     // integers: Decimal alphabet x each type's values, both orders; plus the equal family
     let mut items: Vec<(usize, i128, u8)> = Vec::new();
     for t in 0..9 { for v in alpha::int_values(t, lv, &[]) { for p in 0..=18u8 { items.push((t, v, p)); } } }
